@@ -102,7 +102,7 @@ impl Admin {
 
     #[verifier::external_body]
     pub fn is_admin(&self, deps: Deps, caller: &Addr) -> (r: StdResult<bool>)
-        ensures r is Ok ==> r->Ok_0 == (deps.storage.view().admin == Some(*caller)),
+        ensures r is Ok, r->Ok_0 == (deps.storage.view().admin == Some(*caller)),   // reading the admin cell never fails (T3)
     { unimplemented!() }
 
     #[verifier::external_body]
